@@ -307,7 +307,7 @@ CHECKS['C13'] = dict(
     title='thread-safe option makes concurrent use linearizable', level='exploration',
     jobs=c13_jobs, evidence=c13_evidence,
     rule='controlled mode: small client programs (2 threads x 2-3 ops, 3 threads x 2 ops, directed ones such as addlast || popfirst;popfirst, toarray || addlast;addlast, put || remove;get || get;remove, locked walk || put;remove, find_min/find_max/find_nearest || remove;put, getat;addat || popat;popat) '
-         'over put/get/remove/clear/locked-walk (+ find_min, find_max, find_nearest with the copy flag on the tree; addat/getat/popat/removeat (+ setat, resize(1|6) on the vector) at positions 0-1, removefirst/removelast and reverse() on list and vector; map values go in through put/putstr/putstrf and come back through get/getstr; one stand-alone getnext(copy) on a fresh cursor without the caller holding the lock on list tables (named), list and vector; an eighth container kind, the list table without the unique option, with getmulti and unnamed first-entry reads, modelled as an ordered multimap) '
+         'over put/get/remove/clear/locked-walk (+ find_min, find_max, find_nearest with the copy flag on the tree; addat/getat/popat/removeat (+ setat, resize(1|6) on the vector) at positions 0-1, removefirst/removelast and reverse() on list and vector; map values go in through put/putstr/putstrf and come back through get/getstr; list, queue and stack also run with a setsize() limit of 2 (controlled) / 3 (stress), where adds at the limit must be refused; one stand-alone getnext(copy) on a fresh cursor without the caller holding the lock on list tables (named), list and vector; an eighth container kind, the list table without the unique option, with getmulti and unnamed first-entry reads, modelled as an ordered multimap) '
          'on tree, hash, unique list table, list, queue, stack, vector created thread-safe; each program is run under every schedule (depth-first over the choices at outermost lock acquire / after release / allocator calls / usleep; '
          'a worker waiting for an owned mutex is disabled) when that fits the budget, else under budget DFS + budget random schedules; every history (invocation/response stamps, results, final contents) is searched for a linearization (Wing-Gong, memoised). '
          'stress mode: 4-8 truly concurrent threads with random delays at the same points, unique values; maps checked per key (P-compositionality), sequences by conservation / no-duplicate / not-from-the-future / per-producer FIFO rules (copying gets included), ordered lookups of the tree by a stored-by-an-earlier-put rule; the same workload on a TSan build. '
